@@ -497,7 +497,7 @@ func runC10(p *core.Prog, r *core.Report, tier string) {
 				}
 				stack = append(stack, b.Succs...)
 			}
-			r.Check(!bad, "C10.f", base+"|disabled-relay-dropped", p.Pos(ifi.Pos()), "a relay disabled by the proposer entry is not kept", "a relay disabled by the proposer entry is still appended to the result")
+			r.Check(!bad, "C10.f", base+"|disabled-relay-dropped", p.Pos(core.IfPos(ifi)), "a relay disabled by the proposer entry is not kept", "a relay disabled by the proposer entry is still appended to the result")
 		})
 		r.Check(consulted, "C10.f", base+"|disabled-consulted", p.Pos(mergeLoop.Stmt.Pos()), "the proposer-relay's disabled flag is consulted in the merge", "the merge never consults the proposer-relay's disabled flag")
 		// new relays are generated through the tier chain, only when not already merged
